@@ -11,7 +11,6 @@ use dolby_vision::rpu::extension_metadata::blocks::{
     ExtMetadataBlock, ExtMetadataBlockLevel5, ExtMetadataBlockLevel6, ExtMetadataBlockLevel9,
     ExtMetadataBlockLevel11, ExtMetadataBlockLevel255,
 };
-use dolby_vision::rpu::generate::GenerateConfig;
 
 use dolby_vision::rpu::utils::parse_rpu_file;
 
@@ -147,7 +146,12 @@ impl Editor {
 
         config.execute(&mut rpus)?;
 
-        let mut data = GenerateConfig::encode_option_rpus(&mut rpus);
+        // Every remaining RPU must be written, a failure is not silently dropped
+        let mut data = rpus
+            .iter()
+            .flatten()
+            .map(|rpu| rpu.write_hevc_unspec62_nalu())
+            .collect::<Result<Vec<_>>>()?;
 
         if let Some(to_duplicate) = config.duplicate.as_mut() {
             to_duplicate.sort_by_key(|meta| meta.offset);
